@@ -74,11 +74,13 @@ def open_storage(kind, work):
     return FileStorage(d, supports_mmap=(kind != "file_nommap"))
 
 
-def run_frontend(ops, storage, compound, frontend, work):
-    """Returns the canonical dump of the index produced."""
+def run_frontend(ops, storage, compound, frontend, work, rich=False):
+    """Returns the canonical dump of the index produced.  rich: the schema of
+    Part C (sort columns everywhere, a dynamic field, sparse documents)."""
     from whoosh import writing
     st = open_storage(storage, work)
-    ix = st.create_index(c02.schema())
+    ix = st.create_index(c_schema() if rich else c02.schema())
+    apply_ops = (lambda w, ops: [c_apply(w, op) for op in ops]) if rich else c02.apply_ops
 
     def plain_writer():
         if frontend == "serialmp":
@@ -105,18 +107,21 @@ def run_frontend(ops, storage, compound, frontend, work):
         if not compound:
             bw.writer.compound = False
         for op in ops:
-            c02.apply_ops(bw, [op])
+            apply_ops(bw, [op])
         bw.close()
     else:
         for op in ops:
             w = plain_writer()
-            c02.apply_ops(w, [op])
+            apply_ops(w, [op])
             w.commit()
     if storage == "copy_to_ram":
         from whoosh.filedb.filestore import copy_to_ram
         ix = copy_to_ram(st).open_index()
     else:
         ix = st.open_index()
+    if rich:
+        with ix.searcher() as srch:
+            return {"dump": c_dump(srch.reader(), ix.schema), "sorted": c_sorted(srch)}
     return c02.dump(ix)
 
 
@@ -175,16 +180,20 @@ C_TEXTS = {"a": u"alfa bravo", "b": u"bravo charlie charlie"}
 
 def c_schema():
     from whoosh import fields
-    return fields.Schema(key=fields.ID(stored=True, unique=True, sortable=True),
-                         text=fields.TEXT(stored=True, sortable=True),
-                         n=fields.NUMERIC(int, sortable=True),
-                         tag=fields.KEYWORD(stored=True, vector=True, sortable=True))
+    sch = fields.Schema(key=fields.ID(stored=True, unique=True, sortable=True),
+                        text=fields.TEXT(stored=True, sortable=True),
+                        n=fields.NUMERIC(int, sortable=True),
+                        tag=fields.KEYWORD(stored=True, vector=True, sortable=True))
+    # a dynamic field: its concrete names exist only in the documents
+    sch.add("*_dyn", fields.TEXT(vector=True), glob=True)
+    return sch
 
 
 def c_apply(w, op):
     k = op[0]
     if k == "add":
-        w.add_document(key=op[1], text=C_TEXTS[op[2]], n=len(op[1]) + ord(op[2]), tag=op[2] + u" t")
+        w.add_document(key=op[1], text=C_TEXTS[op[2]], n=len(op[1]) + ord(op[2]), tag=op[2] + u" t",
+                       **{"%s_dyn" % op[2]: C_TEXTS[op[2]] + u" dyn"})
     elif k == "adds":
         w.add_document(key=op[1])
     elif k == "upd":
@@ -242,13 +251,23 @@ def c_dump(r, schema):
                 cols.append([f, repr(v)])
             except Exception as e:
                 cols.append([f, "exc:%s" % type(e).__name__])
-        vec = None
-        if r.has_vector(docnum, "tag"):
-            vec = sorted(t for t, _ in r.vector_as("frequency", docnum, "tag"))
-        lens = [[f, r.doc_field_length(docnum, f)] for f in ("text", "tag")]
+        vec = []
+        for f in ("tag", "a_dyn", "b_dyn"):
+            if r.has_vector(docnum, f):
+                vec.append([f, sorted(r.vector_as("frequency", docnum, f))])
+        lens = [[f, r.doc_field_length(docnum, f)] for f in ("text", "tag", "a_dyn", "b_dyn")]
         out["docs"].append([sf["key"], sorted(sf.items()), cols, vec, lens])
     out["docs"].sort()
-    for fname in ("key", "text", "tag"):
+    # total field lengths are layout independent only without deleted documents
+    # (a segment's statistics include them); min/max are documented as
+    # approximations: they are called (must not raise) but not compared
+    fl = []
+    for f in ("text", "tag", "a_dyn", "b_dyn"):
+        r.min_field_length(f)
+        r.max_field_length(f)
+        fl.append([f, r.field_length(f)])
+    out["field_lengths"] = None if r.has_deletions() else fl
+    for fname in ("key", "text", "tag", "a_dyn", "b_dyn"):
         terms = {}
         for t in r.lexicon(fname):
             m = r.postings(fname, t)
@@ -319,6 +338,8 @@ def _c_diff(ref, got):
     out = []
     for part, a, b in (("dump", ref[0], got[0]), ("sorted", ref[1], got[1])):
         for k in a:
+            if k == "field_lengths" and (a[k] is None or b.get(k) is None):
+                continue
             if a[k] != b.get(k):
                 out.append("%s.%s" % (part, k))
     return out
@@ -369,6 +390,49 @@ def task_c(t):
                                          [rv[0].get(k.split(".", 1)[1]) if k.startswith("dump.") else rv[1].get(k.split(".", 1)[1]) for k in d]))
             if i % 200 == 5:
                 acc.sample({"part": "C", "ops": ops, "reference_docs": [d[0] for d in ref[-1][0]["docs"]]})
+    finally:
+        shutil.rmtree(work, ignore_errors=True)
+    return acc.result()
+
+
+def task_d(t):
+    """Part D: the rich schema through every writer front-end (final dump)."""
+    nsl, sl, maxlen, seed = t
+    acc = core.Acc()
+    work = core.fresh_dir("c18d")
+    try:
+        for i, ops in enumerate(c_op_lists(maxlen)):
+            if i % nsl != sl:
+                continue
+            random.seed(seed)
+            ref = run_frontend(ops, "ram", True, "plain", work, rich=True)
+            for storage, compound, fe in (("file", True, "plain"), ("file", False, "buffered2"), ("ram", True, "async"),
+                                          ("file", True, "serialmp"), ("file", True, "mp2"), ("file_nommap", False, "mp3ms"),
+                                          ("copy_to_ram", True, "serialmp")):
+                if fe.startswith("mp") and i % 5 != 0:
+                    continue
+                acc.count("evaluations")
+                acc.count("partD_cases")
+                case = {"part": "D", "ops": ops, "storage": storage, "compound": compound, "frontend": fe, "seed": seed}
+                random.seed(seed + 1)
+                try:
+                    got = run_frontend(ops, storage, compound, fe, work, rich=True)
+                except Exception as e:
+                    tb = traceback.extract_tb(e.__traceback__)
+                    fr = [f for f in tb if "/whoosh/" in f.filename] or list(tb)
+                    where = "%s:%s" % (fr[-1].filename.split("/")[-1], fr[-1].name)
+                    acc.violation("D|%s|exc:%s@%s" % (fe, type(e).__name__, where), case,
+                                  "%s on %s/%s raised %r at %s for ops %r" % (fe, storage, compound, e, where, ops))
+                    continue
+                if ref["dump"]["docs"]:
+                    acc.count("distinct_nontrivial")
+                d = _c_diff((ref["dump"], ref["sorted"]), (got["dump"], got["sorted"]))
+                if d:
+                    acc.violation("D|%s|differs:%s" % (fe, "+".join(d)), case,
+                                  "ops %r through %s on %s/%s differ from the plain writer in %s: got %r, reference %r"
+                                  % (ops, fe, storage, "compound" if compound else "loose", d,
+                                     [got["dump"].get(k.split(".", 1)[1]) if k.startswith("dump.") else got["sorted"].get(k.split(".", 1)[1]) for k in d],
+                                     [ref["dump"].get(k.split(".", 1)[1]) if k.startswith("dump.") else ref["sorted"].get(k.split(".", 1)[1]) for k in d]))
     finally:
         shutil.rmtree(work, ignore_errors=True)
     return acc.result()
@@ -732,6 +796,8 @@ def task(t):
         return task_a(t[1])
     if t[0] == "C":
         return task_c(t[1])
+    if t[0] == "D":
+        return task_d(t[1])
     return task_b(t[1])
 
 
@@ -750,6 +816,8 @@ def run(ctx):
     cmax, climits = (2, (1, 2, 3)) if ctx.tier == "quick" else (3, (1, 2, 3, 4))
     for sl in range(16):
         tasks.append(("C", (16, sl, cmax, climits, ("ram", "file"), ctx.seed)))
+    for sl in range(16):
+        tasks.append(("D", (16, sl, 2 if ctx.tier == "quick" else 3, ctx.seed)))
     for cfg in b_configs(ctx.tier):
         tasks.append(("B", (cfg, bound, cap, ctx.seed)))
     ctx.rule = ("Part A: every operation list of length <= %d over {add, update, delete} x 2 keys x 2 texts (adds only of "
@@ -760,7 +828,9 @@ def run(ctx):
                 "schema whose ID/TEXT/KEYWORD/NUMERIC fields all have sort columns, through BufferedWriter limit %s on "
                 "{RAM, file}: after EVERY operation the writer's own searcher (stored fields, every column value, "
                 "vectors, field lengths, postings, sort orders) and after close() the reopened index must equal the "
-                "plain-writer reference; Part B: AsyncWriter vs a "
+                "plain-writer reference; Part D: the same operation lists and schema (plus a dynamic *_dyn TEXT field with "
+                "vectors) through {plain on file, BufferedWriter, AsyncWriter, SerialMpWriter, MpWriter 2 procs / 3 procs "
+                "multisegment, copy_to_ram}, final dump incl. per-field length statistics and vectors; Part B: AsyncWriter vs a "
                 "lock-holding plain writer and BufferedWriter shared by two adders, an observer and its timer, every "
                 "schedule with <= B preemptions (storage/lock/sleep points; line-level points inside BufferedWriter); "
                 "states/transitions count Part B scheduling decisions/steps; evaluations count all parts"
@@ -776,6 +846,16 @@ def run(ctx):
 
 def replay(case):
     core.setup_process(case.get("seed", 0) if "seed" in case else case.get("cfg", {}).get("seed", 0))
+    if case["part"] == "D":
+        work = core.fresh_dir("c18r")
+        random.seed(case["seed"])
+        ref = run_frontend(case["ops"], "ram", True, "plain", work, rich=True)
+        random.seed(case["seed"] + 1)
+        try:
+            got = run_frontend(case["ops"], case["storage"], case["compound"], case["frontend"], work, rich=True)
+        except Exception:
+            return {"ok": False, "what": traceback.format_exc()[-600:]}
+        return {"ok": got == ref, "what": "reference %r got %r" % (ref, got)}
     if case["part"] == "C":
         work = core.fresh_dir("c18r")
         ref = c_reference(case["ops"], case["seed"])
